@@ -233,9 +233,10 @@ static inline const char* code_name(int c) {
 struct Verdict1 { int code; size_t pos; };
 struct Policy {
   size_t max_depth = 2048;          // nesting limit L
-  u128 max_array_count = ~(u128)0;  // a definite array head declaring more members is refused
-  u128 max_map_count = ~(u128)0;    // likewise for maps (pairs)
-  u128 max_string_len = ~(u128)0;   // a definite string (or chunk) longer than this is refused
+  // Offset just past the head during which the allocator was OBSERVED to refuse a request, or
+  // (size_t)-1.  The model never predicts refusals from declared counts: how much an implementation
+  // allocates for a head (exact, over-allocated, lazily grown) is its own business.
+  size_t refuse_at = (size_t)-1;
 };
 struct Classified {
   bool accept = false;
@@ -262,11 +263,13 @@ static inline Classified classify(const uint8_t* b, size_t n, const Policy& pol 
   std::vector<Frame_> st;
   size_t p = 0;
   bool have_eager = false; Verdict1 eager{0, 0};
+  std::vector<Verdict1> alts;   // further admissible early verdicts (a count no implementation can preallocate)
   bool hard_truncation_only = true;  // stays true while nothing structurally wrong has been seen
   auto out = [&](int code, size_t pos) -> Classified& {
-    if (have_eager) { R.admissible.push_back(eager); if (!(eager.code == code && eager.pos == pos)) R.admissible.push_back({code, pos}); }
-    else R.admissible.push_back({code, pos});
-    R.prefix_of_acceptable = (code == E_NOTENOUGHDATA) && !have_eager && hard_truncation_only;
+    if (have_eager) R.admissible.push_back(eager);
+    for (auto& a : alts) if (!R.admits(a.code, a.pos)) R.admissible.push_back(a);
+    if (!R.admits(code, pos)) R.admissible.push_back({code, pos});
+    R.prefix_of_acceptable = (code == E_NOTENOUGHDATA) && !have_eager && alts.empty() && hard_truncation_only;
     return R;
   };
   for (;;) {
@@ -290,6 +293,13 @@ static inline Classified classify(const uint8_t* b, size_t n, const Policy& pol 
     }
     R.heads++;
     size_t q = p + (size_t)h.total;
+    if (q == pol.refuse_at && h.kind != K_BREAK) {
+      bool in_chunked = !st.empty() && (st.back().kind == K_BSTR_INDEF || st.back().kind == K_TSTR_INDEF);
+      bool opener = !(h.kind == K_UINT || h.kind == K_NEGINT || h.kind == K_BSTR || h.kind == K_TSTR || h.kind == K_FALSE || h.kind == K_TRUE || h.kind == K_NULL || h.kind == K_UNDEF ||
+                      h.kind == K_HALF || h.kind == K_SINGLE || h.kind == K_DOUBLE);
+      if (in_chunked && opener && !have_eager) { have_eager = true; eager = {E_SYNTAXERROR, q}; }
+      return out(E_MEMERROR, q);
+    }
     Frame_* top = st.empty() ? nullptr : &st.back();
     bool top_chunked = top && (top->kind == K_BSTR_INDEF || top->kind == K_TSTR_INDEF);
     bool completes = false;  // an item finished at q
@@ -302,7 +312,6 @@ static inline Classified classify(const uint8_t* b, size_t n, const Policy& pol 
         done = std::move(top->node); st.pop_back(); completes = true;
         break;
       case K_BSTR: case K_TSTR: {
-        if ((u128)h.arg > pol.max_string_len) return out(E_MEMERROR, q);
         Node s; s.type = h.kind == K_BSTR ? 2 : 3; s.bytes.assign(b + p + h.hlen, b + q);
         if (top_chunked) {
           bool same = (top->kind == K_BSTR_INDEF) == (h.kind == K_BSTR);
@@ -330,8 +339,10 @@ static inline Classified classify(const uint8_t* b, size_t n, const Policy& pol 
           break;
         }
         if (top_chunked && !have_eager) { have_eager = true; eager = {E_SYNTAXERROR, q}; hard_truncation_only = false; }
-        if (h.kind == K_ARR && (u128)h.arg > pol.max_array_count) return out(E_MEMERROR, q);
-        if (h.kind == K_MAP && (u128)h.arg > pol.max_map_count) return out(E_MEMERROR, q);
+        // A declared count of 2^56 or more cannot be preallocated by any implementation (the byte size overflows or
+        // exceeds every address space): refusing it on the spot is legitimate even though the installed allocator never
+        // sees a request; an implementation that grows lazily simply carries on.  Both verdicts are admitted.
+        if ((h.kind == K_ARR || h.kind == K_MAP) && h.arg >= ((uint64_t)1 << 56)) alts.push_back({E_MEMERROR, q});
         if (st.size() >= pol.max_depth) return out(E_MEMERROR, q);
         Frame_ f; f.kind = h.kind; f.parity = 0; f.poisoned = top_chunked; f.remaining = 0;
         if (h.kind == K_ARR) { f.remaining = h.arg; f.node.type = 4; }
